@@ -49,8 +49,31 @@ func undecidedf(format string, args ...interface{}) {
 	panic(undecided{fmt.Sprintf(format, args...)})
 }
 
-func loadProg(repo string) *Prog {
+// overlayFrom maps every file under root (relative path) onto the same
+// relative path under repo: the analysis then sees the overlay contents
+// instead of the files on disk (used to replay stored seeded changes without
+// touching /repo).
+func overlayFrom(root, repo string) map[string][]byte {
+	if root == "" {
+		return nil
+	}
+	ov := map[string][]byte{}
+	filepath.Walk(root, func(path string, info os.FileInfo, err error) error {
+		if err != nil || info.IsDir() {
+			return nil
+		}
+		rel, _ := filepath.Rel(root, path)
+		if b, err := os.ReadFile(path); err == nil {
+			ov[filepath.Join(repo, rel)] = b
+		}
+		return nil
+	})
+	return ov
+}
+
+func loadProg(repo string, overlayRoot string) *Prog {
 	cfg := &packages.Config{
+		Overlay: overlayFrom(overlayRoot, repo),
 		Mode: packages.NeedName | packages.NeedFiles | packages.NeedCompiledGoFiles | packages.NeedImports |
 			packages.NeedDeps | packages.NeedTypes | packages.NeedSyntax | packages.NeedTypesInfo | packages.NeedTypesSizes | packages.NeedModule,
 		Dir:   repo,
@@ -452,6 +475,15 @@ func (r *Report) finish(tier string, seed int, start time.Time, verifDir string,
 		"trusted_base":        r.Trusted,
 		"load":                loadInfo,
 		"exhaustive":          false,
+	}
+	if tier == "thorough" {
+		if wb, err := os.ReadFile(filepath.Join(verifDir, "evidence", r.Prop+".witness.json")); err == nil {
+			var w []map[string]interface{}
+			if json.Unmarshal(wb, &w) == nil {
+				cov["witness_replays"] = w
+				cov["witness_rule"] = "each stored seeded change recorded as detectable for this property was applied to a scratch copy of /repo's current tree and the check had to report a VIOLATION there"
+			}
+		}
 	}
 	ev := evidence{PropertyID: r.Prop, Tier: tier, Seed: seed, Level: "other", Coverage: cov,
 		Assumptions: append([]string{"default build tags only: the 15 files under //go:build vectors need cgo+faiss and are not analysed", "test files are not analysed", "third-party modules are used for type/callee resolution only"}, r.Assumptions...),
